@@ -7,7 +7,7 @@
 
 #define SV_MAXSEG (2 * VM + 3)
 
-struct sv_txt { const URI_CHAR *p; int len; };          /* len == -1: absent */
+struct sv_txt { int len; URI_CHAR c[VL > 0 ? VL : 1]; };   /* text by value (no pointers: cheap for the solver); len == -1: absent */
 struct sv_path { int rooted; int n; struct sv_txt seg[SV_MAXSEG]; };
 struct sv_view {
 	struct sv_txt scheme, userInfo, hostText, port, query, fragment;
@@ -18,20 +18,34 @@ struct sv_view {
 static int sv_txt_eq(const struct sv_txt *a, const struct sv_txt *b) {
 	int i;
 	if (a->len != b->len) return 0;
-	for (i = 0; i < VL; i++) if (i < a->len && a->p[i] != b->p[i]) return 0;
+	for (i = 0; i < VL; i++) if (i < a->len && a->c[i] != b->c[i]) return 0;
 	return 1;
 }
 static int sv_is(const struct sv_txt *t, int len, URI_CHAR c0, URI_CHAR c1) {
 	if (t->len != len) return 0;
-	if (len >= 1 && t->p[0] != c0) return 0;
-	if (len >= 2 && t->p[1] != c1) return 0;
+	if (len >= 1 && t->c[0] != c0) return 0;
+	if (len >= 2 && VL >= 2 && t->c[VL >= 2 ? 1 : 0] != c1) return 0;
 	return 1;
+}
+static struct sv_txt sv_empty(void) { struct sv_txt t; int i; t.len = 0; for (i = 0; i < VL; i++) t.c[i] = 0; return t; }
+static struct sv_txt sv_absent(void) { struct sv_txt t = sv_empty(); t.len = -1; return t; }
+static struct sv_txt sv_dot_txt(void) { struct sv_txt t = sv_empty(); t.len = 1; t.c[0] = _UT('.'); return t; }
+/* copy of a real range (one dereference per character, nothing else touches memory) */
+static struct sv_txt sv_of_range(const URI_CHAR *first, const URI_CHAR *afterLast) {
+	struct sv_txt t = sv_empty(); int i;
+	if (first == NULL) { t.len = -1; return t; }
+	t.len = (int)(afterLast - first);
+	for (i = 0; i < VL; i++) if (i < t.len) t.c[i] = first[i];
+	return t;
 }
 #define SV_IS_DOT(t) sv_is((t), 1, _UT('.'), 0)
 #define SV_IS_DOTDOT(t) sv_is((t), 2, _UT('.'), _UT('.'))
 
 static struct sv_txt sv_of_rng(const struct vu_rng *r, const URI_CHAR *pool) {
-	struct sv_txt t; t.len = r->len; t.p = (r->len < 0) ? NULL : pool + r->off; return t;
+	struct sv_txt t = sv_empty(); int i;
+	t.len = r->len;
+	for (i = 0; i < VL; i++) if (i < r->len) t.c[i] = pool[r->off + i];
+	return t;
 }
 /* view of a shape */
 static void sv_of_shape(struct sv_view *v, const struct vu_shape *s, const URI_CHAR *pool) {
@@ -45,14 +59,14 @@ static void sv_of_shape(struct sv_view *v, const struct vu_shape *s, const URI_C
 	v->path.rooted = s->absolutePath || (s->hostkind != VU_HK_NONE && s->nseg > 0);
 	for (i = 0; i < SV_MAXSEG; i++) {
 		if (i < VM && i < s->nseg) v->path.seg[i] = sv_of_rng(&s->seg[i], pool);
-		else { v->path.seg[i].p = NULL; v->path.seg[i].len = 0; }
+		else v->path.seg[i] = sv_empty();
 	}
 }
 /* view of a real object (bounded walk); returns 0 if the list is longer than SV_MAXSEG or malformed */
 static int sv_of_uri(struct sv_view *v, const URI_TYPE(Uri) *u) {
 	const URI_TYPE(PathSegment) *w = u->pathHead;
 	int i, n = 0, ok = 1;
-#define SV_R(f, r) v->f.p = (r).first; v->f.len = ((r).first == NULL) ? -1 : (int)((r).afterLast - (r).first)
+#define SV_R(f, r) v->f = sv_of_range((r).first, (r).afterLast)
 	SV_R(scheme, u->scheme); SV_R(userInfo, u->userInfo); SV_R(hostText, u->hostText); SV_R(port, u->portText);
 	SV_R(query, u->query); SV_R(fragment, u->fragment);
 	v->hostkind = (u->hostData.ip4 != NULL) ? VU_HK_IP4 : (u->hostData.ip6 != NULL) ? VU_HK_IP6
@@ -62,10 +76,10 @@ static int sv_of_uri(struct sv_view *v, const URI_TYPE(Uri) *u) {
 	if (u->hostData.ip6 != NULL) for (i = 0; i < 16; i++) v->ip[i] = u->hostData.ip6->data[i];
 	for (i = 0; i < SV_MAXSEG; i++) {
 		if (w != NULL) {
-			SV_R(path.seg[n], w->text);
-			if (w->text.first == NULL || w->text.afterLast == NULL) ok = 0;
+			if (w->text.first == NULL || w->text.afterLast == NULL) { ok = 0; v->path.seg[n] = sv_empty(); }
+			else { SV_R(path.seg[n], w->text); if (v->path.seg[n].len < 0 || v->path.seg[n].len > VL) ok = 0; }
 			n++; w = w->next;
-		} else { v->path.seg[i].p = NULL; v->path.seg[i].len = 0; }
+		} else v->path.seg[i] = sv_empty();
 	}
 #undef SV_R
 	if (w != NULL) ok = 0;
@@ -87,15 +101,14 @@ static int sv_path_eq(const struct sv_path *a, const struct sv_path *b) {
 	return 1;
 }
 
-static const URI_CHAR sv_dot[1] = { _UT('.') };
 
 /* RFC 3986 5.2.4 at segment level.  `keepLeadingUp`: a relative-path reference keeps the ".." segments it cannot
  * resolve (used by normalization, not by resolution).  Rootedness is never changed. */
 static void spec_remove_dots(struct sv_path *out, const struct sv_path *in, int keepLeadingUp) {
 	int i, n = 0, last;
-	struct sv_txt empty; empty.p = sv_dot; empty.len = 0;
+	struct sv_txt empty = sv_empty();
 	out->rooted = in->rooted;
-	for (i = 0; i < SV_MAXSEG; i++) { out->seg[i].p = NULL; out->seg[i].len = 0; }
+	for (i = 0; i < SV_MAXSEG; i++) out->seg[i] = sv_empty();
 	for (i = 0; i < SV_MAXSEG; i++) {
 		if (i < in->n) {
 			last = (i == in->n - 1);
@@ -116,7 +129,7 @@ static void spec_remove_dots(struct sv_path *out, const struct sv_path *in, int 
 /* RFC 3986 5.2.3 */
 static void spec_merge(struct sv_path *out, const struct sv_path *base, int baseHasAuthority, const struct sv_path *ref) {
 	int i, k = 0;
-	for (i = 0; i < SV_MAXSEG; i++) { out->seg[i].p = NULL; out->seg[i].len = 0; }
+	for (i = 0; i < SV_MAXSEG; i++) out->seg[i] = sv_empty();
 	if (baseHasAuthority && base->n == 0) out->rooted = 1;
 	else {
 		out->rooted = base->rooted;
@@ -136,7 +149,7 @@ static void spec_guard(struct sv_path *p, int hasAuthority) {
 	int i;
 	if (!hasAuthority && sv_path_starts_dslash(p) && p->n < SV_MAXSEG) {
 		for (i = SV_MAXSEG - 1; i > 0; i--) p->seg[i] = p->seg[i - 1];
-		p->seg[0].p = sv_dot; p->seg[0].len = 1;
+		p->seg[0] = sv_dot_txt();
 		p->n++;
 	}
 }
@@ -213,7 +226,7 @@ static int sv_wf_uri(const URI_TYPE(Uri) *u) {
 
 /* the three shape conditions under which recomposed text is read back the same way (DESIGN 3.2 reparse_safe) */
 static int sv_contains(const struct sv_txt *t, URI_CHAR c) {
-	int i; for (i = 0; i < VL; i++) if (i < t->len && t->p[i] == c) return 1; return 0;
+	int i; for (i = 0; i < VL; i++) if (i < t->len && t->c[i] == c) return 1; return 0;
 }
 static int sv_reparse_safe(const struct sv_view *v) {
 	int hasAuth = v->hostkind != VU_HK_NONE;
